@@ -16,11 +16,11 @@ type replayDoc struct {
 	Key    string `json:"key"`
 	What   string `json:"what"`
 	Replay struct {
-		Universe *Universe      `json:"universe"`
-		Trace    []traceStep    `json:"trace"`
-		Path     []string       `json:"path"`
-		Prefix   []string       `json:"sequential_prefix"`
-		Policy   *MiningPolicy  `json:"policy"`
+		Universe *Universe        `json:"universe"`
+		Trace    []traceStep      `json:"trace"`
+		Path     []string         `json:"path"`
+		Prefix   []string         `json:"sequential_prefix"`
+		Policy   *MiningPolicy    `json:"policy"`
 		History  []map[string]any `json:"concurrent_history"`
 	} `json:"replay"`
 }
